@@ -43,7 +43,7 @@ type jSortCase struct {
 	NT       bool     `json:"nt"` // non-trivial: at least one key and two rows
 }
 
-var c09Names = map[string]int64{"f1": 1, "f2": 2, "f3": 3, "d1": 11, "d2": 12, "d3": 13, "zz": 20}
+var c09Names = map[string]int64{"f1": 1, "f2": 2, "f3": 3, "d1": 11, "d2": 12, "d3": 13, "pid": 16, "zz": 20}
 
 type sliceSource struct {
 	fields core.Fields
